@@ -409,3 +409,214 @@ Proof.
     + intros c. unfold command_components. apply ann_service; [reflexivity|exact At| |cbn; constructor].
       intros m Hm. apply in_map_iff in Hm. destruct Hm as [md [<- _]]. cbn. constructor.
 Qed.
+
+(* ---- the event oneof <-> the declared events --------------------------------------- *)
+Theorem event_oneof_bijection : forall e,
+  let m := event_type_msg e in
+  m_oneof m = true
+  /\ map fst (m_nested m) = map ev_name (e_events e)
+  /\ map f_json (m_fields m) = map (fun ev => to_lower_camel (ev_name ev)) (e_events e)
+  /\ Forall2 (fun f n => f_type f = TObject [] (m_name m ++ [46] ++ fst n)) (m_fields m) (m_nested m)
+  /\ map snd (m_nested m) = map (fun ev => map of_ufield (ev_fields ev)) (e_events e).
+Proof.
+  intros e. cbv zeta. unfold event_type_msg. cbn [m_oneof m_nested m_fields m_name].
+  repeat split.
+  - now rewrite map_map.
+  - now rewrite map_map.
+  - induction (e_events e) as [|ev l IH]; cbn [map]; constructor; [reflexivity|exact IH].
+  - now rewrite map_map.
+Qed.
+
+(* ---- keys: declaration order, primary keys required ------------------------------------ *)
+Theorem keys_in_declaration_order : forall e,
+  map f_json (m_fields (keys_msg e)) = map (fun k => uf_name (k_def k)) (e_keys e).
+Proof.
+  intros e. unfold keys_msg. cbn [m_fields]. rewrite map_map. apply map_ext.
+  intros [[n [pt k|p t] r] s]; reflexivity.
+Qed.
+
+Theorem primary_keys_required : forall e f,
+  In f (m_fields (keys_msg e)) -> f_primary f = true -> f_required f = true.
+Proof.
+  intros e f Hf Hp. unfold keys_msg in Hf. cbn [m_fields] in Hf.
+  apply in_map_iff in Hf. destruct Hf as [[[n [pt k|p t] r] s] [<- _]]; cbn in *; [discriminate|].
+  subst p. apply orb_true_r.
+Qed.
+
+Definition primary_keys (e : entity) : list ufield := filter is_primary (map k_def (e_keys e)).
+
+Lemma primary_is_key : forall u, is_primary u = true -> is_key_field u = true.
+Proof. intros [n [pt k|p t] r] H; [discriminate|reflexivity]. Qed.
+
+(* the primary keys are, in declaration order, among the Get/Events path keys ... *)
+Theorem get_keys_primary : forall e, filter is_primary (get_keys e) = primary_keys e.
+Proof.
+  intros e. unfold get_keys, primary_keys.
+  induction (e_keys e) as [|k l IH]; [reflexivity|]. cbn [filter map].
+  destruct (is_primary (k_def k)) eqn:Hp.
+  - rewrite (primary_is_key _ Hp). cbn [andb orb map filter]. rewrite Hp. now f_equal.
+  - destruct (is_key_field (k_def k) && (false || k_shard k)); cbn [map filter]; [rewrite Hp|]; exact IH.
+Qed.
+
+(* ... and without shard keys they are exactly the path keys *)
+Theorem get_keys_no_shard : forall e,
+  (forall k, In k (e_keys e) -> k_shard k = false) -> get_keys e = primary_keys e.
+Proof.
+  intros e H. unfold get_keys, primary_keys.
+  induction (e_keys e) as [|k l IH]; [reflexivity|]. cbn [filter map].
+  rewrite (H k (or_introl eq_refl)), orb_false_r.
+  assert (E : is_key_field (k_def k) && is_primary (k_def k) = is_primary (k_def k)).
+  { destruct (is_primary (k_def k)) eqn:Hp; [now rewrite (primary_is_key _ Hp)|apply andb_false_r]. }
+  rewrite E. destruct (is_primary (k_def k)); cbn [map]; [f_equal|]; apply IH; intros k' Hk'; apply H; now right.
+Qed.
+
+(* ---- paths ------------------------------------------------------------------------------- *)
+Definition no_slash (s : bytes) : bool := forallb (fun c => negb (c =? 47)) s.
+
+Lemma split_slash_noslash : forall p cur rest,
+  no_slash p = true -> split_slash cur (p ++ rest) = split_slash (rev p ++ cur) rest.
+Proof.
+  induction p as [|c p IH]; intros cur rest H; [reflexivity|].
+  cbn [no_slash forallb] in H. apply andb_true_iff in H. destruct H as [Hc Hp].
+  apply negb_true_iff in Hc. cbn [app split_slash]. rewrite Hc.
+  rewrite (IH (c :: cur) rest Hp). cbn [rev]. now rewrite <- app_assoc.
+Qed.
+
+Lemma split_slash_app_slash : forall a cur b,
+  split_slash cur (a ++ 47 :: b) = split_slash cur a ++ split_slash [] b.
+Proof.
+  induction a as [|c a IH]; intros cur b.
+  - cbn. reflexivity.
+  - cbn [app split_slash]. destruct (c =? 47); [cbn [app]; f_equal|]; apply IH.
+Qed.
+
+Lemma split_slash_single : forall p, no_slash p = true -> split_slash [] p = [p].
+Proof.
+  intros p H. rewrite <- (app_nil_r p) at 1. rewrite split_slash_noslash by assumption.
+  cbn. now rewrite app_nil_r, rev_involutive.
+Qed.
+
+Lemma split_join : forall parts, parts <> [] -> Forall (fun p => no_slash p = true) parts ->
+  split_slash [] (join [47] parts) = parts.
+Proof.
+  induction parts as [|p l IH]; intros Hne HF; [congruence|].
+  inversion HF as [|? ? Hp Hl]; subst. destruct l as [|q l'].
+  - cbn [join]. now apply split_slash_single.
+  - change (join [47] (p :: q :: l')) with (p ++ 47 :: join [47] (q :: l')).
+    rewrite split_slash_app_slash, (split_slash_single p Hp), IH; [reflexivity|discriminate|assumption].
+Qed.
+
+Lemma join_app : forall (sep : bytes) a b, a <> [] -> b <> [] ->
+  join sep (a ++ b) = join sep a ++ sep ++ join sep b.
+Proof.
+  intros sep a b Ha Hb. induction a as [|x a IH]; [congruence|].
+  destruct a as [|y a'].
+  - destruct b as [|z b']; [congruence|]. reflexivity.
+  - change (join sep ((x :: y :: a') ++ b)) with (x ++ sep ++ join sep ((y :: a') ++ b)).
+    rewrite IH by discriminate. change (join sep (x :: y :: a')) with (x ++ sep ++ join sep (y :: a')).
+    now rewrite <- !app_assoc.
+Qed.
+
+Lemma split_slash_nonempty : forall s cur, split_slash cur s <> [].
+Proof. induction s as [|c s IH]; intros cur; cbn; [discriminate|]. destruct (c =? 47); [discriminate|apply IH]. Qed.
+
+(* the rule path of base/rel is the rule path of base, a slash, the rule path of rel *)
+Lemma http_rule_path_app : forall base rel,
+  http_rule_path (base ++ [47] ++ rel) = http_rule_path base ++ [47] ++ http_rule_path rel.
+Proof.
+  intros base rel. unfold http_rule_path. cbn [app]. rewrite split_slash_app_slash, map_app.
+  apply join_app; intros H; apply map_eq_nil in H; revert H; apply split_slash_nonempty.
+Qed.
+
+Definition brace (u : ufield) : bytes := [123] ++ to_snake (uf_name u) ++ [125].
+
+Lemma http_rule_path_keys : forall ks tail,
+  Forall (fun u => no_slash (uf_name u) = true) ks ->
+  Forall (fun p => no_slash p = true) tail -> ks ++ map (fun p => mkU p (KScalar 0 []) false) tail <> [] ->
+  http_rule_path (join [47] (key_path ks ++ tail)) = join [47] (map brace ks ++ map conv_part tail).
+Proof.
+  intros ks tail Hk Ht Hne. unfold http_rule_path. rewrite split_join.
+  - rewrite map_app. f_equal. f_equal. unfold key_path. rewrite map_map. apply map_ext. reflexivity.
+  - intros H. apply Hne. apply app_eq_nil in H. destruct H as [H1 H2].
+    unfold key_path in H1. apply map_eq_nil in H1. subst. reflexivity.
+  - apply Forall_app. split; [|assumption]. unfold key_path. apply Forall_map.
+    eapply Forall_impl; [|exact Hk]. intros u Hu. cbn. exact Hu.
+Qed.
+
+(* the query service: names, flags and paths of Get / List / Events *)
+Definition query_base (e : entity) : bytes := [47] ++ base_url e ++ bs "/q".
+Definition query_paths (e : entity) : list bytes :=
+  [ http_rule_path (path_join (query_base e) (join [47] (key_path (get_keys e))));
+    http_rule_path (path_join (query_base e) (join [47] (key_path (list_keys e))));
+    http_rule_path (path_join (query_base e) (join [47] (key_path (get_keys e) ++ [bs "events"]))) ].
+
+Theorem query_service_methods : forall e,
+  exists s, In (CSvc 1 s) (query_components e)
+    /\ sv_name s = query_prefix e ++ bs "QueryService" /\ sv_ann s = SQuery (snake_name e)
+    /\ map mt_name (sv_methods s) = [query_prefix e ++ bs "Get"; query_prefix e ++ bs "List"; query_prefix e ++ bs "Events"]
+    /\ map mt_sq (sv_methods s) = [1; 2; 3] /\ map mt_verb (sv_methods s) = [1; 1; 1]
+    /\ map mt_path (sv_methods s) = query_paths e.
+Proof.
+  intros e. eexists. split.
+  - unfold query_components, service_components. apply in_or_app. right. left. reflexivity.
+  - cbn [sv_name sv_ann sv_methods map snd method_components mt_name mt_sq mt_verb mt_path].
+    repeat split. rewrite <- app_assoc. reflexivity.
+Qed.
+
+(* Get = <base>/{k1}/.../{kn}, Events = <base>/{k1}/.../{kn}/events, the keys being the
+   primary and shard keys in declaration order *)
+Theorem get_events_paths : forall e,
+  Forall (fun k => no_slash (uf_name (k_def k)) = true) (e_keys e) ->
+  nth 0 (query_paths e) [] =
+    match get_keys e with
+    | [] => http_rule_path (query_base e)
+    | ks => http_rule_path (query_base e) ++ [47] ++ join [47] (map brace ks)
+    end
+  /\ nth 2 (query_paths e) [] =
+       http_rule_path (query_base e) ++ [47] ++ join [47] (map brace (get_keys e) ++ [bs "events"]).
+Proof.
+  intros e Hk. unfold query_paths. cbn [nth].
+  assert (Hg : Forall (fun u => no_slash (uf_name u) = true) (get_keys e)).
+  { unfold get_keys. apply Forall_map. apply Forall_forall. intros k Hin.
+    apply filter_In in Hin. destruct Hin as [Hin _]. rewrite Forall_forall in Hk. now apply Hk. }
+  split.
+  - destruct (get_keys e) as [|u ks] eqn:E; [reflexivity|].
+    unfold path_join. destruct (join [47] (key_path (u :: ks))) eqn:Ej.
+    + exfalso. cbn [key_path map] in Ej. destruct (map _ ks); cbn in Ej; discriminate.
+    + rewrite <- Ej. rewrite http_rule_path_app. f_equal. f_equal.
+      pose proof (http_rule_path_keys (u :: ks) [] Hg (Forall_nil _)) as H.
+      rewrite !app_nil_r in H. apply H. discriminate.
+  - unfold path_join. destruct (join [47] (key_path (get_keys e) ++ [bs "events"])) eqn:Ej.
+    + exfalso. destruct (key_path (get_keys e)) as [|a [|b l]]; cbn in Ej; try discriminate;
+        apply app_eq_nil in Ej; destruct Ej; discriminate.
+    + rewrite <- Ej. rewrite http_rule_path_app. f_equal. f_equal.
+      apply (http_rule_path_keys (get_keys e) [bs "events"] Hg).
+      * repeat constructor.
+      * intros H. apply app_eq_nil in H. destruct H as [_ H]. discriminate.
+Qed.
+
+(* ---- statuses: numbered in declaration order after UNSPECIFIED ---------------------------- *)
+Lemma number_from_nth : forall l i p k, (k < length l)%nat ->
+  nth_error (number_from i p l) k = Some (status_value_name p (nth k l []), i + N.of_nat k).
+Proof.
+  induction l as [|s l IH]; intros i p k Hk; [cbn in Hk; lia|].
+  destruct k as [|k]; cbn [number_from nth_error nth].
+  - f_equal. f_equal. lia.
+  - rewrite IH by (cbn in Hk; lia). f_equal. f_equal. lia.
+Qed.
+
+Theorem status_numbering : forall p l,
+  match l with s :: _ => has_suffix (bs "UNSPECIFIED") s = false | [] => True end ->
+  status_values p l = (p ++ bs "UNSPECIFIED", 0) :: number_from 1 p l
+  /\ forall k, (k < length l)%nat ->
+       nth_error (status_values p l) (S k) = Some (status_value_name p (nth k l []), N.of_nat (S k)).
+Proof.
+  intros p l H.
+  assert (E : status_values p l = (p ++ bs "UNSPECIFIED", 0) :: number_from 1 p l).
+  { destruct l as [|s r]; [reflexivity|]. cbn [status_values]. now rewrite H. }
+  split; [exact E|]. intros k Hk. rewrite E. cbn [nth_error].
+  rewrite number_from_nth by assumption. f_equal. f_equal. lia.
+Qed.
+
+Lemma number_from_length : forall l i p, length (number_from i p l) = length l.
+Proof. induction l as [|s l IH]; intros; cbn; [reflexivity|now rewrite IH]. Qed.
